@@ -5,13 +5,16 @@ package checks
 // Every answer must describe its own request, position by position.
 
 import (
+	"context"
 	"encoding/json"
 	"fmt"
 	"net/http"
+	"runtime"
 	"strings"
 	"sync"
 
 	"github.com/formancehq/ledger/verifharness/evid"
+	"github.com/formancehq/ledger/verifharness/hookctx"
 	"github.com/formancehq/ledger/verifharness/httpsim"
 	"pgregory.net/rapid"
 )
@@ -155,6 +158,184 @@ func c18Concurrent(rt *rapid.T, c *evid.Collector) {
 					return
 				}
 			}
+		}
+	}
+}
+
+// ---------------------------------------------------------------------------
+// scheduled family: the harness owns the order in which bulk requests are executed and answered.
+// A request parks at the verifhook point "bulk.processed" (its elements have been executed, its
+// response is not written yet); other requests are started, parked and released around it in a
+// generated order. The Go runtime is restricted to one processor for the duration of the case so
+// that "the next request" really is the next user of anything the previous one gave back.
+
+type c18Parked struct {
+	parked  chan struct{}
+	release chan struct{}
+}
+
+func (p *c18Parked) Yield(ctx context.Context, point string) {
+	if point == "bulk.processed" {
+		close(p.parked)
+		<-p.release
+	}
+}
+func (p *c18Parked) Await(context.Context, string, <-chan struct{})  {}
+func (p *c18Parked) BeforeLock(context.Context, string, *sync.Mutex) {}
+func (p *c18Parked) Expose(context.Context, string, any)             {}
+
+func c18Scheduled(rt *rapid.T, c *evid.Collector) {
+	hookctx.Install()
+	defer runtime.GOMAXPROCS(runtime.GOMAXPROCS(1))
+	nReq := rapid.IntRange(2, 5).Draw(rt, "schedRequests")
+	be := httpsim.NewFakeBackend()
+	type req struct {
+		cl     *c18Client
+		target string
+		hook   *c18Parked
+		done   chan struct{}
+		status int
+		body   string
+	}
+	reqs := make([]*req, nReq)
+	for k := range reqs {
+		cl := &c18Client{cont: rapid.Bool().Draw(rt, "schedCont")}
+		n := rapid.IntRange(1, 6).Draw(rt, "schedN")
+		var parts []string
+		for i := 0; i < n; i++ {
+			mark := fmt.Sprint((k+1)*100000 + i)
+			cl.marks = append(cl.marks, mark)
+			cl.fails = append(cl.fails, rapid.IntRange(0, 5).Draw(rt, "schedFail") == 0)
+			parts = append(parts, `{"action":"CREATE_TRANSACTION","data":{"postings":[{"source":"world","destination":"a","asset":"USD","amount":1}],"metadata":{"el":"`+mark+`"}}}`)
+		}
+		cl.body = "[" + strings.Join(parts, ",") + "]"
+		name := fmt.Sprintf("s%d", k)
+		fl := &httpsim.FakeLedger{Name: name}
+		marks, fails := cl.marks, cl.fails
+		fl.FailCall = func(call httpsim.Call) string {
+			m := callMarker(call)
+			for i, mk := range marks {
+				if mk == m && fails[i] {
+					return "INSUFFICIENT_FUND"
+				}
+			}
+			return ""
+		}
+		be.Ledgers[name] = fl
+		target := "/api/ledger/v2/" + name + "/_bulk"
+		if cl.cont {
+			target += "?continueOnFailure=true"
+		}
+		reqs[k] = &req{cl: cl, target: target, hook: &c18Parked{parked: make(chan struct{}), release: make(chan struct{})}, done: make(chan struct{})}
+	}
+	router := httpsim.NewRouter(be, false)
+	// the order: a shuffle of start(k) / release(k) with start before release
+	type act struct {
+		start bool
+		k     int
+	}
+	var order []act
+	started, released := 0, map[int]bool{}
+	var open []int
+	for len(released) < nReq {
+		canStart := started < nReq
+		if canStart && (len(open) == 0 || rapid.Bool().Draw(rt, "schedStartNext")) {
+			order = append(order, act{true, started})
+			open = append(open, started)
+			started++
+			continue
+		}
+		i := rapid.IntRange(0, len(open)-1).Draw(rt, "schedRelease")
+		k := open[i]
+		open = append(open[:i], open[i+1:]...)
+		order = append(order, act{false, k})
+		released[k] = true
+	}
+	var desc []string
+	overlap := false
+	for _, a := range order {
+		r := reqs[a.k]
+		if a.start {
+			desc = append(desc, fmt.Sprintf("start%d", a.k))
+			go func() {
+				defer close(r.done)
+				rec := httpsim.ServeCtx(hookctx.With(context.Background(), r.hook), router, http.MethodPost, r.target, map[string]string{"Content-Type": "application/json"}, r.cl.body)
+				r.status, r.body = rec.Code, rec.Body.String()
+			}()
+			select {
+			case <-r.hook.parked:
+			case <-r.done:
+			}
+			continue
+		}
+		desc = append(desc, fmt.Sprintf("answer%d", a.k))
+		for _, o := range reqs {
+			if o != r {
+				select {
+				case <-o.hook.parked:
+					select {
+					case <-o.done:
+					default:
+						overlap = true
+					}
+				default:
+				}
+			}
+		}
+		close(r.hook.release)
+		<-r.done
+	}
+	c.Case(evid.Key("scheduled", strings.Join(desc, ","), nReq), overlap, []string{"family:scheduled", fmt.Sprintf("requests:%d", nReq)}, func() any {
+		return map[string]any{"family": "scheduled", "order": desc}
+	})
+	for k, r := range reqs {
+		cl := r.cl
+		var want []int
+		anyFailed := false
+		for i := range cl.marks {
+			want = append(want, i)
+			if cl.fails[i] {
+				anyFailed = true
+				if !cl.cont {
+					break
+				}
+			}
+		}
+		where := fmt.Sprintf("request %d of %d (order %s; %d elements, continueOnFailure=%v)", k, nReq, strings.Join(desc, ","), len(cl.marks), cl.cont)
+		var resp struct {
+			Data []struct {
+				ResponseType string `json:"responseType"`
+				ErrorCode    string `json:"errorCode"`
+				Data         struct {
+					Metadata map[string]string `json:"metadata"`
+				} `json:"data"`
+			} `json:"data"`
+		}
+		if err := json.Unmarshal([]byte(r.body), &resp); err != nil {
+			violation(rt, c, "C18/scheduled/response-undecodable", "%s: %v: %s", where, err, clip(r.body))
+			return
+		}
+		if len(resp.Data) != len(want) {
+			violation(rt, c, "C18/scheduled/result-count", "%s: %d results for %d processed elements: %s", where, len(resp.Data), len(want), clip(r.body))
+			return
+		}
+		for pi, i := range want {
+			res := resp.Data[pi]
+			if cl.fails[i] {
+				if res.ResponseType != "ERROR" {
+					violation(rt, c, "C18/scheduled/position", "%s: result %d is %s %v, element %d failed", where, pi, res.ResponseType, res.Data.Metadata, i)
+					return
+				}
+				continue
+			}
+			if res.ResponseType != "CREATE_TRANSACTION" || res.Data.Metadata["el"] != cl.marks[i] {
+				violation(rt, c, "C18/scheduled/position", "%s: result %d is %s carrying marker %q (error %q), element %d carries marker %s", where, pi, res.ResponseType, res.Data.Metadata["el"], res.ErrorCode, i, cl.marks[i])
+				return
+			}
+		}
+		if (r.status >= 400) != anyFailed {
+			violation(rt, c, "C18/scheduled/status", "%s: status %d, some element failed: %v", where, r.status, anyFailed)
+			return
 		}
 	}
 }
